@@ -28,16 +28,28 @@ def run(ctx):
     else:
         seeds = slice_for_seed(POOL, ctx.seed, 16)
     pkgs = [semcheck.gen_package(s) for s in seeds]
-    obs, failures, _ = semcheck.run_configs(ctx, pkgs, cfgs, procs=10)
+    # The property compares optimizer-on with optimizer-off. Configurations with only some sub-optimizations
+    # switched on are not configurations the compiler ever runs (one sub-pass may rely on another to clean up
+    # after it); they are built and validated for information only and never raise an alarm.
+    primary = [c for c in cfgs if c["on"] == "compiler default" or len(c["on"]) in (0, 9)]
+    partial = [c for c in cfgs if c not in primary]
+    obs, failures, _ = semcheck.run_configs(ctx, pkgs, primary, procs=10)
     semcheck.report_failures(ctx, failures)
     validated, rej = semcheck.validate(ctx, pkgs, obs)
     semcheck.report_rejections(ctx, rej, pkgs)
+    pobs, pfail, _ = semcheck.run_configs(ctx, pkgs, partial, procs=10) if partial else ({}, [], None)
+    pval, prej = semcheck.validate(ctx, pkgs, pobs) if partial else (0, [])
+    cfgs = primary
+    info_partial = {"configs": len(partial), "observations_validated": pval,
+                    "build_failures": sorted({(f["cfg"], f["detail"][:120]) for f in pfail})[:10],
+                    "disagreements_with_semantics": [{"pkg": r["pkg"], "test": r["test"]} for r in prej][:10]}
     return ctx.finish("model_checking", {
         "traces_validated_against_impl": validated,
         "programs": len(pkgs), "asm_configurations": len(cfgs), "builds": len(pkgs) * len(cfgs),
         "observations": sum(len(o) for pk in obs.values() for o in pk.values()),
         "distinct_nontrivial_cases": semcheck.nontrivial_count(obs),
         "failed_builds": len(failures),
+        "info_partial_configurations": info_partial,
         "samples": [{"config": c["name"], "on": c["on"]} for c in cfgs[:4]],
     }, assumptions=[
         "H3 selects sub-optimizations inside AbstractInstructionSet::optimize and AllocatedAbstractInstructionSet::optimize; 'all off' is the optimizer disabled",
